@@ -48,6 +48,22 @@ func genC11(seed uint64, tier string) *Plan {
 	if r.Chance(0.2) {
 		p.X["interrupt"] = 1 + r.Intn(6) // countdown contexts on some cycles
 	}
+	if p.X["mode"] != 1 && r.Chance(0.25) {
+		// background class: after the files were emptied the store is reopened
+		// with its own collectors and flusher on short simulated intervals and
+		// left alone; the bound is stated in GC intervals of simulated time. This
+		// is what exercises the collectors' run loops (timer re-arming, the index
+		// collector's skipping of the free-file scan, time-limited cycles that
+		// resume), which explicit cycles bypass.
+		p.X["bg"] = 1
+		p.X["bg_gc_ms"] = 2 + r.Intn(30)
+		p.X["bg_sync_ms"] = 1 + r.Intn(p.X["bg_gc_ms"])
+		p.X["bg_limit_ms"] = []int{0, 0, 1, 3}[r.Intn(4)]
+		p.X["interrupt"] = 0
+		if r.Chance(0.5) {
+			p.Sim.Latency = LatencyCfg{Kind: "const", Base: int64(1000 * (1 + r.Intn(200)))}
+		}
+	}
 	return p
 }
 
@@ -270,6 +286,10 @@ func runGCProg(p *Plan, tape *simrt.Tape, opt RunOpt) *RunOut {
 		if n := p.x("interrupt", 0); n > 0 {
 			B *= 3
 		}
+		if p.x("bg", 0) == 1 {
+			d.gcProgBackground(p, target, oldFirst, B, imax, len(locs)+len(nonCurrent))
+			return
+		}
 		rounds := 0
 		for ; rounds < B && len(released()) > 0; rounds++ {
 			op := Op{K: "pgc", A: thr}
@@ -431,6 +451,132 @@ func runGCProg(p *Plan, tape *simrt.Tape, opt RunOpt) *RunOut {
 	finish(out, w, res, p, d.Viol, opt)
 	out.Sample = fmt.Sprintf("cfg=%+v x=%v ops=%v", p.Cfg, p.X, opsString(p.Ops, 10))
 	return out
+}
+
+// gcProgBackground is the background class of C11: the store is reopened with
+// its own flusher and collectors and left idle; the files in target (primary
+// files all of whose records were superseded and flushed) and the index files no
+// bucket refers into must be released within a bounded number of GC intervals
+// of simulated time, and after that the files must stop changing.
+func (d *Driver) gcProgBackground(p *Plan, target map[uint64]bool, oldFirst uint32, B int, imax uint64, nfix int) {
+	// index files no bucket refers into (before the collectors start)
+	curIdx := uint64(d.St.Index().VerifCurrentFile())
+	busy := map[uint64]bool{}
+	for _, pos := range d.St.Index().VerifBuckets() {
+		if pos != 0 {
+			busy[(uint64(pos)-4)/imax] = true
+		}
+	}
+	var cand []uint64
+	if p.x("mode", 0) == 2 {
+		for f, data := range numberedFiles(fsOf().Files(), indexPath) {
+			if uint64(f) != curIdx && !busy[uint64(f)] && len(data) > 0 {
+				cand = append(cand, uint64(f))
+			}
+		}
+		sort.Slice(cand, func(i, j int) bool { return cand[i] < cand[j] })
+	}
+	nIdx := len(numberedFiles(fsOf().Files(), indexPath))
+	if !d.CloseStore("gcprog-bg") {
+		return
+	}
+	gcMs := p.x("bg_gc_ms", 10)
+	d.Cfg.GCMs = int64(gcMs)
+	d.Cfg.GCLimitMs = int64(p.x("bg_limit_ms", 0))
+	d.Cfg.Flusher = true
+	d.Cfg.SyncMs = p.x("bg_sync_ms", 1)
+	if err := d.Open(); err != nil {
+		d.fail("gcprog/open-error", "reopen with background collectors failed: %v", err)
+		return
+	}
+	left := func() (pl, il []uint64) {
+		files := fsOf().Files()
+		for f := range target {
+			if data, ok := files[fmt.Sprintf("%s.%d", dataPath, f)]; ok && len(data) != 0 {
+				pl = append(pl, f)
+			}
+		}
+		for _, f := range cand {
+			if data, ok := files[fmt.Sprintf("%s.%d", indexPath, f)]; ok && len(data) != 0 {
+				il = append(il, f)
+			}
+		}
+		sort.Slice(pl, func(i, j int) bool { return pl[i] < pl[j] })
+		sort.Slice(il, func(i, j int) bool { return il[i] < il[j] })
+		return
+	}
+	// bound, in GC intervals: the explicit-cycle bound for the primary, the
+	// index bound plus the longest run of cycles that skip the free-file scan;
+	// tripled when cycles are time-limited (a limited cycle resumes where it
+	// stopped), plus the half interval by which the primary collector is offset
+	K := B + 2 + nIdx + 12
+	if d.Cfg.GCLimitMs > 0 {
+		K *= 3
+	}
+	waited := 0
+	for ; waited < K; waited++ {
+		if pl, il := left(); len(pl) == 0 && len(il) == 0 {
+			break
+		}
+		simrt.Sleep(int64(gcMs) * 1000000)
+	}
+	if pl, il := left(); len(pl) > 0 || len(il) > 0 {
+		if len(pl) > 0 {
+			d.fail("gcprog/bg-primary-not-released", "after %d GC intervals (%d ms each, time limit %d ms) of an idle store with background collectors, primary files %v still hold bytes although every record in them was superseded and flushed", waited, gcMs, d.Cfg.GCLimitMs, pl)
+		} else {
+			d.fail("gcprog/bg-index-not-released", "after %d GC intervals (%d ms each, time limit %d ms) of an idle store with background collectors, index files %v still hold bytes although no bucket refers into them", waited, gcMs, d.Cfg.GCLimitMs, il)
+		}
+		return
+	}
+	d.cprobe("bg-released")
+	d.Probes["bg-intervals-waited"] += waited
+	if target[uint64(oldFirst)] {
+		if _, ok := fsOf().Files()[fmt.Sprintf("%s.%d", dataPath, oldFirst)]; ok {
+			// emptied by truncation; unlinked when it is visited as the oldest file
+			for i := 0; i < K; i++ {
+				if _, ok := fsOf().Files()[fmt.Sprintf("%s.%d", dataPath, oldFirst)]; !ok {
+					break
+				}
+				simrt.Sleep(int64(gcMs) * 1000000)
+			}
+		}
+		if _, ok := fsOf().Files()[fmt.Sprintf("%s.%d", dataPath, oldFirst)]; ok {
+			d.fail("gcprog/bg-oldest-not-unlinked", "the oldest primary file %d was emptied but still exists after %d more GC intervals of the background collector", oldFirst, K)
+			return
+		}
+		if nf := readPrimaryFirst(); nf <= oldFirst {
+			d.fail("gcprog/first-file-not-advanced", "the oldest primary file %d was unlinked but the header still says FirstFile=%d", oldFirst, nf)
+			return
+		}
+		d.cprobe("oldest-unlinked")
+	}
+	// fixed point: an idle store with running collectors stops writing
+	stable := 0
+	Bfp := 4 + nfix + 2 + 12
+	if d.Cfg.GCLimitMs > 0 {
+		Bfp *= 3
+	}
+	for r := 0; r < Bfp+3 && stable < 3; r++ {
+		before := filesFingerprint()
+		simrt.Sleep(int64(gcMs) * 1000000)
+		if filesFingerprint() == before {
+			stable++
+		} else {
+			stable = 0
+		}
+	}
+	if stable < 3 {
+		d.fail("gcprog/bg-no-fixed-point", "an idle store with background collectors (interval %d ms) kept changing its files for %d GC intervals", gcMs, Bfp+3)
+		return
+	}
+	d.cprobe("fixed-point")
+	d.ReadBack("gcprog-bg-final")
+	if d.Viol != nil {
+		d.Viol = nil
+		d.Probes["other-oracle-failed"]++
+		return
+	}
+	d.CloseStore("final")
 }
 
 func b2i(b bool) int {
